@@ -3,6 +3,7 @@ Model: lean/EaselModel/Buffer/*, theorems: Props/C05.lean, driver: Driver/C05.le
 from vlib.engine import Prop, Failure
 
 MODES = ["string", "stream", "pipe", "file", "allfile", "mmap"]
+NATURAL = ["auto", "open"]     # esl_buffer_OpenFile / esl_buffer_Open without forcing: mode chosen from the file size (slurped here)
 PAGES = [1, 2, 3, 4, 5, 7, 8, 16, 64, 512, 4096]
 K_STABLE = "C05:stable-anchor:realloc-in-refill"
 
@@ -122,7 +123,7 @@ class C05(Prop):
     theorems = ["EaselModel.Props.C05." + t for t in (
         "open_wf", "refill_wf", "refill_guarantee", "getLine_refines", "fetchLine_refines", "read_refines",
         "getToken_refines", "fetchToken_refines", "lines_partition", "getLine_keeps_anchor", "countline_pagesize_independent",
-        "history_spec", "history_mode_independent", "history_no_fault", "reread_under_anchor", "step_simulates",
+        "history_spec", "history_mode_independent", "history_no_fault", "reread_under_anchor", "step_simulates", "get_prefix",
         "stable_ptr_valid_partial", "stable_ptr_valid_fails_at")]
     claimed = True
     level_text = ("Theorems (no bound on input, page size >= 1, or history length): every opener yields a well-formed window; buffer_refill preserves it and restores the page guarantee; "
@@ -253,7 +254,7 @@ class C05(Prop):
     def configs(self, rng, src, k, minps=1):
         out = []
         for _ in range(k):
-            m = rng.choice(MODES)
+            m = rng.choice(MODES) if rng.random() < 0.9 else rng.choice(NATURAL)
             if m == "mmap" and len(src) == 0: m = "allfile"
             ps = rng.choice([p for p in PAGES if p >= minps])
             out.append((m, ps))
@@ -265,7 +266,7 @@ class C05(Prop):
     def corpus(self, ctx):
         """regression inputs of the three defects repaired in esl_buffer.c (cafe6fe, a12f75c) and the witness of the known finding"""
         out = []
-        for m in MODES:
+        for m in MODES + NATURAL:
             for ps in (1, 2, 3, 4):
                 out.append(self.mk("reg-eol-then-getline.%s.%d" % (m, ps), b"   \nabc\n", m, ps, ["gettoken sep=20", "getline", "getline", "get"]))
                 out.append(self.mk("reg-cr-at-window-edge.%s.%d" % (m, ps), b"  \r\nb\n", m, ps, ["gettoken sep=20", "gettoken sep=20", "gettoken sep=20", "gettoken sep=20"]))
@@ -301,7 +302,7 @@ class C05(Prop):
             if edge:
                 eps = rng.choice([1, 2, 3, 4, 5, 7, 8, 16])
                 src = self.gen_edge_input(rng, eps)
-                cfgs = [(rng.choice(MODES), eps)] + self.configs(rng, src, k - 1)
+                cfgs = [(rng.choice(MODES[:4]), eps)] + self.configs(rng, src, k - 1)
                 cfgs = [(("allfile" if (m == "mmap" and len(src) == 0) else m), ps) for m, ps in cfgs]
                 self.stats["edge_inputs"] += 1
             else:
